@@ -1,7 +1,7 @@
 //verif:pkg .
 //verif:use fakes_mcp
 //verif:use fakes_client
-//verif:bound Streamable client: every request-building path (request, notification, handshake, listening-stream GET, answer to a server-issued request, session DELETE) x {0..2 static headers, custom path or none, before-request function absent / present / failing, session id issued or not}; one operation per path after a scripted handshake
+//verif:bound Streamable client: every request-building path (request, notification, handshake, listening-stream GET, answer to a server-issued request, session DELETE) x {0..2 static headers (one of them with two values), custom path or none, before-request function absent / present / failing, session id issued or not}; one operation per path after a scripted handshake
 package mcp
 
 import (
@@ -56,7 +56,8 @@ func c19Setup(e *c19Env) {
 	var opts []ClientOption
 	h := http.Header{}
 	if e.hdrA {
-		h.Set("X-A", "va")
+		h.Add("X-A", "va") // a header with two values: both must reach the wire
+		h.Add("X-A", "va2")
 	}
 	if e.hdrB {
 		h.Set("X-B", "vb")
@@ -97,7 +98,8 @@ func c19CheckSent(e *c19Env, s *verifSent, wantSession bool) {
 	}
 	vAssert("configured-host", strings.HasPrefix(s.url, "http://h.example/"))
 	if e.hdrA {
-		vAssert("static-header-A", s.header.Get("X-A") == "va")
+		av := s.header.Values("X-A")
+		vAssert("static-header-A-all-values", vAnd(len(av) == 2, len(av) == 2 && av[0] == "va" && av[1] == "va2"))
 	}
 	if e.hdrB {
 		vAssert("static-header-B", s.header.Get("X-B") == "vb")
